@@ -78,8 +78,8 @@ META.update({
         'note': E1_NOTE + 'The mock host never closes a PR whose source branch vanished, so "no open robot PR without a live parent" is not asserted after merges.'},
     'C20': {
         'engine': 'E1 world', 'level': 'exploration', 'design_ref': 'DESIGN.md 5 C20',
-        'technique': 'deterministic simulation: admin jobs (create/delete branch, rebuild/delete/force-merge queues) issued in seeded reachable states with queued PRs; before/after ref+tag diff against a reference cascade model',
-        'text': 'In states reached by seeded histories (queues on/off, hotfix queues, queued PRs) admin jobs are issued with names older/between/newer/existing/archived and branch_from absent/branch/commit. Refusals (JobFailure/NothingToDo/NotMyJob) must leave refs and tags identical; a successful create-branch must leave a well-formed layout (reference model) with the C01 chain, never for an archived version or an older development branch while PRs are queued; delete-branch refuses with queued PRs / live stabilization and leaves the archive tag on the deleted tip; rebuild/delete queues touch only q/*, and rebuild re-submits exactly the queued PRs in entry order (per independent queue).',
+        'technique': 'deterministic simulation with fault injection: admin jobs (create/delete branch, rebuild/delete/force-merge queues) issued in seeded reachable states with queued PRs, create/delete-branch also under per-ref push rejection and a racing tag push; before/after ref+tag diff against a reference cascade model',
+        'text': 'In states reached by seeded histories (queues on/off, hotfix queues, queued PRs) admin jobs are issued with names older/between/newer/existing/archived and branch_from absent/branch/commit. Refusals (JobFailure/NothingToDo/NotMyJob) must leave refs and tags identical; a successful create-branch must leave a well-formed layout (reference model) with the C01 chain, never for an archived version or an older development branch while PRs are queued; delete-branch refuses with queued PRs / live stabilization and leaves the archive tag on the deleted tip; rebuild/delete queues touch only q/*, and rebuild re-submits exactly the queued PRs in entry order (per independent queue). Sampled create/delete-branch jobs are additionally re-run in fork() snapshots with the remote refusing each ref the job publishes and with a third party publishing the archive tag first: a refusing job must leave destination branches (and tags other than the deliberately early archive tag) untouched, a deleted branch must have its archive tag.',
         'note': E1_NOTE + 'A rebuild-queues job that ends in an internal exception while PRs are queued counts as a violation (it re-submits nothing).'},
 })
 
